@@ -23,6 +23,17 @@ def handle (op : String) (args : List String) : Option String :=
     match pMesh args with
     | some (m, []) => some (boolStr (decide (MeshVal.WF m)))
     | _ => some "false"
+  else if op == "c02.holds.wf_raw_setter" then
+    -- raw whole-attribute setters (ClearAttributeData, SetFloatNData, CopyFloatNAttribute): "guard → WF", where
+    -- guard = 1 when the caller respected the setter's side condition (theorems setAttr_wf, setAttr_delete_wf,
+    -- setData_wf, clearAttrs_wf); with guard = 0 nothing is claimed
+    match args with
+    | g :: rest =>
+      if g == "0" then some "true"
+      else match pMesh rest with
+        | some (m, []) => some (boolStr (decide (MeshVal.WF m)))
+        | _ => some "false"
+    | [] => some "false"
   else if op == "c02.holds.polygon_idx" then
     -- args: pathLen sides closed verts n idx… : the implementation's extrude.polygon output is the Lean
     -- generator for the winding flags read off the output itself (predicate of theorem extrudePolygon_wf)
